@@ -6,9 +6,11 @@ import (
 
 	"verif/driver"
 	"verif/scen/fscrash"
+	"verif/scen/kvstore"
 )
 
 func main() {
 	driver.Register(fscrash.S{})
+	driver.Register(kvstore.S{})
 	os.Exit(driver.Main(os.Args[1:]))
 }
